@@ -92,9 +92,19 @@ def _history(calls):
     out = []
     for call, ef in calls:
         o = do_call(call, ef)
-        out.append((o, [key_id(('sv', k[0], k[1].__name__)) for k in utils._schema_valid_cache.keys()],
-                    [key_id(('va', k[0], k[1])) for k in utils._valid_against_schema_cache.keys()]))
+        out.append((o, [_keytext(k) for k in list(utils._schema_valid_cache.keys())],
+                    [_keytext(k) for k in list(utils._valid_against_schema_cache.keys())]))
     return out
+
+
+def _keytext(k):
+    """cache key -> the key id used in the traces; any other key shape is rendered as text (drift only)"""
+    try:
+        if isinstance(k, tuple) and len(k) == 2:
+            return '%s|%s' % (k[0], getattr(k[1], '__name__', k[1]))
+    except Exception:
+        pass
+    return 'key:%r' % (k,)
 
 
 def _pool_fresh(arg):
